@@ -122,6 +122,7 @@ struct ChildOutcome {
     std::string type; // demangled exception type, or crash class
     std::string what; // exception text
     std::string tail; // last part of the child's stderr
+    std::string all;  // everything the child wrote to stderr (capped at 1 MB)
     const char* kind_name() const
     {
         static const char* n[] = {"ok", "std-exception", "non-std-exception", "crash"};
@@ -191,6 +192,7 @@ ChildOutcome run_in_child(F&& body, int timeout_s = 300)
     while (waitpid(pid, &status, 0) < 0 && errno == EINTR) {
     }
     out.tail = err.size() > 1500 ? err.substr(err.size() - 1500) : err;
+    out.all  = err;
     if (WIFEXITED(status) && WEXITSTATUS(status) == 0) {
         out.kind = ChildOutcome::OK;
         return out;
@@ -215,6 +217,54 @@ ChildOutcome run_in_child(F&& body, int timeout_s = 300)
     }
     out.kind = ChildOutcome::CRASH;
     out.type = classify_death(status, err);
+    return out;
+}
+
+// ---- data channel from the measuring child to the supervising process: tab-separated records on the child's stderr
+static const char* const DATA_MARK = "@@C18-D@@";
+inline void emit_record(const std::vector<std::string>& fields)
+{
+    std::string m = std::string("\n") + DATA_MARK;
+    for (auto& f : fields) {
+        m += '\t';
+        for (char ch : f)
+            m += (ch == '\n' || ch == '\t' || ch == '\r') ? ' ' : ch;
+    }
+    m += '\n';
+    size_t off = 0;
+    while (off < m.size()) {
+        ssize_t n = write(2, m.data() + off, m.size() - off);
+        if (n <= 0) {
+            if (errno == EINTR)
+                continue;
+            break;
+        }
+        off += (size_t)n;
+    }
+}
+inline std::vector<std::vector<std::string>> parse_records(const std::string& text)
+{
+    std::vector<std::vector<std::string>> out;
+    size_t pos = 0, ml = strlen(DATA_MARK);
+    while (pos <= text.size()) {
+        size_t nl = text.find('\n', pos);
+        std::string line = text.substr(pos, nl == std::string::npos ? std::string::npos : nl - pos);
+        if (line.compare(0, ml, DATA_MARK) == 0 && line.size() > ml && line[ml] == '\t') {
+            std::vector<std::string> f;
+            size_t p = ml + 1;
+            for (;;) {
+                size_t t = line.find('\t', p);
+                f.push_back(line.substr(p, t == std::string::npos ? std::string::npos : t - p));
+                if (t == std::string::npos)
+                    break;
+                p = t + 1;
+            }
+            out.push_back(f);
+        }
+        if (nl == std::string::npos)
+            break;
+        pos = nl + 1;
+    }
     return out;
 }
 
